@@ -236,7 +236,9 @@ class RDFWriter(object):
             curr_val = getattr(doc, k)
 
             # Ignore an "id" entry, it has already been used to create the node itself.
-            if k == "id" or not curr_val:
+            # Skip unset attributes, but keep values that are set and falsy like 0.
+            if k == "id" or curr_val is None or curr_val == "" or \
+                    (isinstance(curr_val, list) and not curr_val):
                 continue
 
             if k == "repository":
@@ -281,7 +283,9 @@ class RDFWriter(object):
             curr_val = getattr(sec, k)
 
             # Ignore an "id" entry, it has already been used to create the node itself.
-            if k == "id" or not curr_val:
+            # Skip unset attributes, but keep values that are set and falsy like 0.
+            if k == "id" or curr_val is None or curr_val == "" or \
+                    (isinstance(curr_val, list) and not curr_val):
                 continue
 
             if k == "repository":
@@ -318,7 +322,9 @@ class RDFWriter(object):
 
             # Ignore "id" and empty values, but make sure the content of "value"
             # is only accessed via its non deprecated property "values".
-            if k == "id" or not curr_val:
+            # Skip unset attributes, but keep values that are set and falsy like 0.
+            if k == "id" or curr_val is None or curr_val == "" or \
+                    (isinstance(curr_val, list) and not curr_val):
                 continue
 
             if k == "value":
